@@ -1192,3 +1192,150 @@ func init() {
 			return obs
 		}})
 }
+
+// MINIFY.global-kinds — C17: a top-level name may be renamed only when the
+// name is nothing but a binding.  `set` takes its name as a quoted symbol (a
+// value); defmacro names are looked up in templates; a deftype name is stored
+// in every value of the type and printed with it.  Only a top-level FUNCTION
+// name is a pure binding.  The rule is a census of the kinds `renameable` lets
+// through at global scope.
+func init() {
+	register(&Rule{ID: "MINIFY.global-kinds", Floor: 5,
+		Doc: "in minifier.renameable, under the ScopeGlobal test, every analysis.SymbolKind other than SymFunction (and SymParameter, which cannot be global) is refused — by a `return false` clause of the kind switch there or by an unconditional kind test earlier in the function: variables named by `set`, macros and deftype names (stored in and printed with every value of the type) keep their names",
+		Run: func(c *Ctx) []Obligation {
+			const rid = "MINIFY.global-kinds"
+			fn, fd, pkg := c.LookupFunc("minifier.renameable")
+			if fn == nil {
+				return []Obligation{anchorMissing(rid, "minifier.renameable")}
+			}
+			u := FuncUnit{fn, fd, pkg}
+			info := pkg.TypesInfo
+			// all SymbolKind constants
+			var kindT types.Type
+			kinds := map[string]types.Object{}
+			for _, p := range c.Pkgs {
+				if rel(p.PkgPath) != "analysis" {
+					continue
+				}
+				sc := p.Types.Scope()
+				if o := sc.Lookup("SymbolKind"); o != nil {
+					kindT = o.Type()
+				}
+				for _, nm := range sc.Names() {
+					if k, ok := sc.Lookup(nm).(*types.Const); ok && kindT != nil && types.Identical(k.Type(), kindT) {
+						kinds[nm] = k
+					}
+				}
+			}
+			if len(kinds) == 0 {
+				return []Obligation{anchorMissing(rid, "analysis.SymbolKind constants")}
+			}
+			kindOf := func(e ast.Expr) string {
+				if o := identObjOrSel(info, e); o != nil {
+					if _, ok := kinds[o.Name()]; ok && kinds[o.Name()] == o {
+						return o.Name()
+					}
+				}
+				return ""
+			}
+			isKindSel := func(e ast.Expr) bool {
+				se, ok := ast.Unparen(e).(*ast.SelectorExpr)
+				return ok && se.Sel.Name == "Kind" && kindT != nil && types.Identical(info.TypeOf(e), kindT)
+			}
+			returnsFalse := func(body []ast.Stmt) bool {
+				if len(body) == 0 {
+					return false
+				}
+				rs, ok := body[len(body)-1].(*ast.ReturnStmt)
+				if !ok || len(rs.Results) != 1 {
+					return false
+				}
+				tv, ok := info.Types[rs.Results[0]]
+				return ok && tv.Value != nil && tv.Value.String() == "false"
+			}
+			blocked := map[string]ast.Node{}
+			// (1) unconditional early tests: `if sym.Kind == K || sym.Kind == K2 { return false }` at the top level of the body
+			for _, st := range fd.Body.List {
+				is, ok := st.(*ast.IfStmt)
+				if !ok || is.Init != nil || !returnsFalse(is.Body.List) {
+					continue
+				}
+				var ks []string
+				pure := true
+				var walk func(e ast.Expr)
+				walk = func(e ast.Expr) {
+					e = ast.Unparen(e)
+					be, ok := e.(*ast.BinaryExpr)
+					if !ok {
+						pure = false
+						return
+					}
+					switch be.Op {
+					case token.LOR:
+						walk(be.X)
+						walk(be.Y)
+					case token.EQL:
+						if isKindSel(be.X) && kindOf(be.Y) != "" {
+							ks = append(ks, kindOf(be.Y))
+						} else if isKindSel(be.Y) && kindOf(be.X) != "" {
+							ks = append(ks, kindOf(be.X))
+						} else {
+							pure = false
+						}
+					default:
+						pure = false
+					}
+				}
+				walk(is.Cond)
+				if pure {
+					for _, k := range ks {
+						blocked[k] = is
+					}
+				}
+			}
+			// (2) the kind switch under the ScopeGlobal test
+			var sw *ast.SwitchStmt
+			ast.Inspect(fd.Body, func(n ast.Node) bool {
+				is, ok := n.(*ast.IfStmt)
+				if !ok || !strings.Contains(types.ExprString(is.Cond), "ScopeGlobal") {
+					return true
+				}
+				for _, st := range is.Body.List {
+					if s, ok := st.(*ast.SwitchStmt); ok && s.Tag != nil && isKindSel(s.Tag) {
+						sw = s
+					}
+				}
+				return true
+			})
+			if sw == nil {
+				return []Obligation{mkOb(c, rid, u, "kind switch at global scope", fd, Undecided, "no `switch sym.Kind` under a ScopeGlobal test found in renameable", true)}
+			}
+			for _, st := range sw.Body.List {
+				cc := st.(*ast.CaseClause)
+				if !returnsFalse(cc.Body) {
+					continue
+				}
+				for _, e := range cc.List {
+					if k := kindOf(e); k != "" {
+						blocked[k] = cc
+					}
+				}
+			}
+			pureBinding := map[string]string{
+				"SymFunction":  "a top-level function name is only a binding: defun stores the function under it and nothing prints it",
+				"SymParameter": "parameters are never at global scope",
+			}
+			var obs []Obligation
+			for _, k := range sortedKeys(kinds) {
+				construct := "global " + k
+				if n, ok := blocked[k]; ok {
+					obs = append(obs, mkOb(c, rid, u, construct, n, Proved, "refused", true))
+				} else if why, ok := pureBinding[k]; ok {
+					obs = append(obs, mkOb(c, rid, u, construct, sw, Proved, "renameable: "+why, false))
+				} else {
+					obs = append(obs, mkOb(c, rid, u, construct, sw, Violated, "a top-level name of this kind can be renamed, but the name is more than a binding (a `set` name is a quoted symbol, a macro name is looked up in templates, a deftype name is stored in and printed with every value of the type): the minified program's values or output differ from the original's", true))
+				}
+			}
+			return obs
+		}})
+}
